@@ -5,14 +5,16 @@
 (*                 Evict may drop any entry at any time; Set evicts until it fits)     *)
 (*   value.go      Value refcounting: acquire / Release / free                         *)
 (*   read_shard.go single-flight reads: acquireReadEntry, waitForReadPermissionOrHandle,*)
-(*                 setReadValue, setReadError                                          *)
+(*                 setReadValue, setReadError, unrefAndTryRemoveFromMap; a waiter whose *)
+(*                 context is cancelled leaves with the context's error               *)
 (* Keys 1..NK: key k belongs to file FileOf(k) (one file per handle here).  Value ids  *)
 (* 1..NV are allocated in order, each has size 1; Cap = capacity in values.            *)
 EXTENDS Integers, FiniteSets, Sequences, TLC
 CONSTANTS NK, NV, Cap, MaxHold, Readers,
           BugStaleAfterDelete,   \* seeded: Delete leaves the entry readable
           BugGetNoAcquire,       \* seeded: Get hands out a value without taking a reference
-          BugWakeAllOnError      \* seeded: a failed read releases every waiter as if a value had been set
+          BugWakeAllOnError,     \* seeded: a failed read releases every waiter as if a value had been set
+          BugLeakOnCancel        \* seeded: a waiter whose context is cancelled keeps its reference on the read entry
 Keys == 1..NK
 Vals == 1..NV
 FileOf(k) == (k + 1) \div 2
@@ -25,14 +27,19 @@ VARIABLES stored,    \* stored[k]: value id in the cache for k, 0 = none
           nextv,     \* next value id to allocate
           turn,      \* read shard for RK: reader holding the read turn, 0 = none
           waiters,   \* readers blocked in waitForReadPermissionOrHandle
-          out,       \* out[r]: 0 = not finished, -1 = own read error, -2 = released without a value (bug), else value id received
-          errs       \* read errors so far (bound)
-vars == <<stored, latest, holders, refs, freed, nextv, turn, waiters, out, errs>>
+          out,       \* out[r]: 0 = not finished, -1 = own read error, -2 = released without a value (bug),
+                     \*   -3 = context cancelled while waiting, else value id received
+          errs,      \* read errors + cancellations so far (bound)
+          rec,       \* readEntry.refCount of RK's read entry (0 = no entry in the readMap)
+          rev,       \* readEntry.mu.v: the value the entry still carries (0 = none)
+          stale      \* history: some reader that arrived after an invalidation was handed the invalidated value
+vars == <<stored, latest, holders, refs, freed, nextv, turn, waiters, out, errs, rec, rev, stale>>
 RS == 1..Readers
 
 Init == /\ stored = [k \in Keys |-> 0] /\ latest = [k \in Keys |-> 0]
         /\ holders = [v \in Vals |-> 0] /\ refs = [v \in Vals |-> 0] /\ freed = [v \in Vals |-> FALSE]
         /\ nextv = 1 /\ turn = 0 /\ waiters = {} /\ out = [r \in RS |-> 0] /\ errs = 0
+        /\ rec = 0 /\ rev = 0 /\ stale = FALSE
 
 InCache(v, st) == \E k \in Keys : st[k] = v
 Count(st) == Cardinality({k \in Keys : st[k] # 0})
@@ -49,65 +56,80 @@ Set(k) == /\ nextv <= NV
                /\ (Count([j \in Keys |-> IF j = k THEN nextv ELSE stored[j]]) <= Cap => ev = {})   \* evict only when needed
                /\ Replace(new, [refs EXCEPT ![nextv] = 1])
           /\ latest' = [latest EXCEPT ![k] = nextv] /\ nextv' = nextv + 1
-          /\ UNCHANGED <<holders, turn, waiters, out, errs>>
+          /\ UNCHANGED <<holders, turn, waiters, out, errs, rec, rev, stale>>
 (* Get(k) hit: the caller receives stored[k] with a reference of its own *)
 GetHit(k) == /\ stored[k] # 0 /\ holders[stored[k]] < MaxHold
              /\ holders' = [holders EXCEPT ![stored[k]] = @ + 1]
              /\ refs' = (IF BugGetNoAcquire THEN refs ELSE [refs EXCEPT ![stored[k]] = @ + 1])
-             /\ UNCHANGED <<stored, latest, freed, nextv, turn, waiters, out, errs>>
+             /\ UNCHANGED <<stored, latest, freed, nextv, turn, waiters, out, errs, rec, rev, stale>>
 Release(v) == /\ holders[v] > 0
               /\ holders' = [holders EXCEPT ![v] = @ - 1]
               /\ refs' = [refs EXCEPT ![v] = @ - 1]
               /\ freed' = [freed EXCEPT ![v] = freed[v] \/ refs[v] = 1]
-              /\ UNCHANGED <<stored, latest, nextv, turn, waiters, out, errs>>
+              /\ UNCHANGED <<stored, latest, nextv, turn, waiters, out, errs, rec, rev, stale>>
 Delete(k) == /\ stored[k] # 0 \/ latest[k] # 0
              /\ (IF BugStaleAfterDelete THEN UNCHANGED <<stored, refs, freed>>
                  ELSE Replace([stored EXCEPT ![k] = 0], refs))
              /\ latest' = [latest EXCEPT ![k] = 0]
-             /\ UNCHANGED <<holders, nextv, turn, waiters, out, errs>>
+             /\ UNCHANGED <<holders, nextv, turn, waiters, out, errs, rec, rev, stale>>
 EvictFile(f) == /\ \E k \in Keys : FileOf(k) = f /\ (stored[k] # 0 \/ latest[k] # 0)
                 /\ Replace([k \in Keys |-> IF FileOf(k) = f THEN 0 ELSE stored[k]], refs)
                 /\ latest' = [k \in Keys |-> IF FileOf(k) = f THEN 0 ELSE latest[k]]
-                /\ UNCHANGED <<holders, nextv, turn, waiters, out, errs>>
+                /\ UNCHANGED <<holders, nextv, turn, waiters, out, errs, rec, rev, stale>>
 (* the replacement policy may drop any entry at any time (latest[k] stays: a later Get may only miss) *)
 Evict(k) == /\ stored[k] # 0 /\ Replace([stored EXCEPT ![k] = 0], refs)
-            /\ UNCHANGED <<latest, holders, nextv, turn, waiters, out, errs>>
+            /\ UNCHANGED <<latest, holders, nextv, turn, waiters, out, errs, rec, rev, stale>>
 
 (* ---- read shard, key RK ---- *)
+(* getWithReadEntry: a hit in the block map, else acquireReadEntry (refCount++) and waitForReadPermissionOrHandle *)
 Arrive(r) == /\ out[r] = 0 /\ r # turn /\ r \notin waiters
              /\ (IF stored[RK] # 0
-                 THEN /\ out' = [out EXCEPT ![r] = stored[RK]] /\ UNCHANGED <<turn, waiters>>     \* cache hit
-                 ELSE IF turn = 0 THEN turn' = r /\ UNCHANGED <<waiters, out>>                   \* becomes the reader
-                 ELSE waiters' = waiters \cup {r} /\ UNCHANGED <<turn, out>>)                    \* waits
-             /\ UNCHANGED <<stored, latest, holders, refs, freed, nextv, errs>>
-(* the turn holder's read succeeded: SetReadValue(fresh value): every waiter receives that value *)
+                 THEN /\ out' = [out EXCEPT ![r] = stored[RK]] /\ UNCHANGED <<turn, waiters, rec, stale>>     \* cache hit
+                 ELSE IF rev # 0                                                                              \* the entry carries a value:
+                 THEN /\ out' = [out EXCEPT ![r] = rev] /\ stale' = (stale \/ rev # latest[RK])               \*   handed out, unref
+                      /\ UNCHANGED <<turn, waiters, rec>>
+                 ELSE IF turn = 0 THEN turn' = r /\ rec' = rec + 1 /\ UNCHANGED <<waiters, out, stale>>        \* becomes the reader
+                 ELSE waiters' = waiters \cup {r} /\ rec' = rec + 1 /\ UNCHANGED <<turn, out, stale>>)        \* waits
+             /\ UNCHANGED <<stored, latest, holders, refs, freed, nextv, errs, rev>>
+(* the turn holder's read succeeded: SetReadValue(fresh value): every waiter receives that value; the reader and   *)
+(* every waiter drop their reference on the entry; the entry (and its value) stays while references are left      *)
+RecAfterOK == rec - 1 - Cardinality(waiters)
 ReadOK(r) == /\ turn = r /\ nextv <= NV
              /\ \E ev \in SUBSET (Keys \ {RK}) :
                   LET new == [j \in Keys |-> IF j = RK THEN nextv ELSE IF j \in ev THEN 0 ELSE stored[j]] IN
                   /\ Count(new) <= Cap
                   /\ (Count([j \in Keys |-> IF j = RK THEN nextv ELSE stored[j]]) <= Cap => ev = {})
-                  /\ Replace(new, [refs EXCEPT ![nextv] = 1])
+                  /\ Replace(new, [refs EXCEPT ![nextv] = 1 + (IF RecAfterOK > 0 THEN 1 ELSE 0)])
              /\ latest' = [latest EXCEPT ![RK] = nextv] /\ nextv' = nextv + 1
              /\ out' = [x \in RS |-> IF x = r \/ x \in waiters THEN nextv ELSE out[x]]
              /\ turn' = 0 /\ waiters' = {}
-             /\ UNCHANGED <<holders, errs>>
+             /\ rec' = RecAfterOK /\ rev' = (IF RecAfterOK > 0 THEN nextv ELSE 0)
+             /\ UNCHANGED <<holders, errs, stale>>
 (* the turn holder's read failed: SetReadError: it reports its own error; ONE waiter takes the turn *)
 ReadErr(r) == /\ turn = r /\ errs < 2
               /\ errs' = errs + 1
               /\ (IF BugWakeAllOnError
                   THEN /\ out' = [x \in RS |-> IF x = r THEN -1 ELSE IF x \in waiters THEN -2 ELSE out[x]]
-                       /\ turn' = 0 /\ waiters' = {}
-                  ELSE IF waiters = {} THEN out' = [out EXCEPT ![r] = -1] /\ turn' = 0 /\ waiters' = waiters
-                  ELSE \E w \in waiters : out' = [out EXCEPT ![r] = -1] /\ turn' = w /\ waiters' = waiters \ {w})
-              /\ UNCHANGED <<stored, latest, holders, refs, freed, nextv>>
+                       /\ turn' = 0 /\ waiters' = {} /\ rec' = rec - 1 - Cardinality(waiters)
+                  ELSE IF waiters = {} THEN out' = [out EXCEPT ![r] = -1] /\ turn' = 0 /\ waiters' = waiters /\ rec' = rec - 1
+                  ELSE \E w \in waiters : out' = [out EXCEPT ![r] = -1] /\ turn' = w /\ waiters' = waiters \ {w} /\ rec' = rec - 1)
+              /\ UNCHANGED <<stored, latest, holders, refs, freed, nextv, rev, stale>>
+(* a waiter's context is cancelled (or was cancelled before it started to wait): it returns the context's error and *)
+(* drops its reference on the entry *)
+Cancel(r) == /\ r \in waiters /\ errs < 2
+             /\ errs' = errs + 1
+             /\ out' = [out EXCEPT ![r] = -3] /\ waiters' = waiters \ {r}
+             /\ rec' = (IF BugLeakOnCancel THEN rec ELSE rec - 1)
+             /\ UNCHANGED <<stored, latest, holders, refs, freed, nextv, turn, rev, stale>>
 
 Next == \/ \E k \in Keys : Set(k) \/ GetHit(k) \/ Delete(k) \/ Evict(k)
         \/ \E v \in Vals : Release(v)
         \/ \E f \in {FileOf(k) : k \in Keys} : EvictFile(f)
-        \/ \E r \in RS : Arrive(r) \/ ReadOK(r) \/ ReadErr(r)
+        \/ \E r \in RS : Arrive(r) \/ ReadOK(r) \/ ReadErr(r) \/ Cancel(r)
 Spec == Init /\ [][Next]_vars
 (* the read shard alone (schedule generation for mode C) *)
-NextRS == \E r \in RS : Arrive(r) \/ ReadOK(r) \/ ReadErr(r)
+(* with cancelled waiters and an invalidation of the block (Delete) between the readers *)
+NextRS == (\E r \in RS : Arrive(r) \/ ReadOK(r) \/ ReadErr(r) \/ Cancel(r)) \/ Delete(RK)
 SpecRS == Init /\ [][NextRS]_vars
 
 (* ---- C34 ---- *)
@@ -115,10 +137,14 @@ SpecRS == Init /\ [][NextRS]_vars
 HitIsLatest == \A k \in Keys : stored[k] \in {0, latest[k]}
 (* a value is never freed while referenced (by a caller or by the cache) *)
 NoFreeWhileReferenced == \A v \in Vals : freed[v] => (holders[v] = 0 /\ ~InCache(v, stored))
-RefsExact == \A v \in Vals : ~freed[v] => refs[v] = holders[v] + (IF InCache(v, stored) THEN 1 ELSE 0)
+RefsExact == \A v \in Vals : ~freed[v] => refs[v] = holders[v] + (IF InCache(v, stored) THEN 1 ELSE 0) + (IF rev = v THEN 1 ELSE 0)
 SizeBound == Count(stored) <= Cap
 (* single flight: every reader that got a value got the value some turn holder set; errors only to the reader that failed *)
 SingleFlight == /\ \A r \in RS : out[r] # -2
                 /\ \A r \in RS : out[r] > 0 => out[r] < nextv
 OneTurn == turn = 0 => waiters = {}
+(* a reader that arrives after Delete / EvictFile never receives the invalidated value through the read shard *)
+NoStaleRead == ~stale
+(* the read entry lives exactly as long as somebody is inside GetWithReadHandle / holds the turn *)
+ReadEntryReleased == rec = (IF turn # 0 THEN 1 ELSE 0) + Cardinality(waiters)
 =============================================================================
